@@ -160,6 +160,14 @@ class Ctx(object):
             return
         raise violation_class(signature)(signature, case, observed)
 
+    def fail_direct(self, case, signature, observed=None):
+        """Like fail(), for plain enumeration loops (no Hypothesis to shrink): record and go on."""
+        try:
+            self.fail(case, signature, observed)
+        except Violation as v:
+            if len(self.violations) < 5:
+                self.record_violation(v)
+
     def record_violation(self, v):
         self.violations.append({'signature': jsonable(v.signature), 'case': jsonable(v.case),
                                 'observed': jsonable(v.observed)})
